@@ -40,18 +40,18 @@ type shadow struct {
 }
 
 type c12run struct {
-	m        *Mix
-	o        *sim.Outcome
-	sc       *C12Script
-	sh       shadow
-	secretV  []byte
-	secretR  []byte
-	prover   *ref.SMP // the reference peer's own SMP state
-	pRole    int
-	lastV    map[uint16][]*big.Int // last SMP message of each type the victim sent
-	nTLV     int
+	m          *Mix
+	o          *sim.Outcome
+	sc         *C12Script
+	sh         shadow
+	secretV    []byte
+	secretR    []byte
+	prover     *ref.SMP // the reference peer's own SMP state
+	pRole      int
+	lastV      map[uint16][]*big.Int // last SMP message of each type the victim sent
+	nTLV       int
 	degenerate bool // an out-of-range group element was put on the wire (v2 known-finding class)
-	hits     int
+	hits       int
 }
 
 func (r *c12run) paramLen() int {
